@@ -58,6 +58,7 @@ type instRT struct {
 	watchOrd   int
 	watchCalls int
 	healthN    int
+	startSem   chan struct{}
 }
 
 type objRT struct {
@@ -274,6 +275,15 @@ func (s *Sim) doAction(a *Action) {
 	}
 	switch a.Kind {
 	case ActStart:
+		// Start actions of one instance are serialised: at most one election object per instance id is
+		// active at any time (instance ids are unique per group - a precondition of every property)
+		in := s.insts[a.Inst]
+		select {
+		case in.startSem <- struct{}{}:
+		case <-s.teardownCh:
+			return
+		}
+		defer func() { <-in.startSem }()
 		o := s.current(a.Inst)
 		if o != nil {
 			// wait for in-progress stop calls first (see below), then decide
@@ -314,6 +324,21 @@ func (s *Sim) doAction(a *Action) {
 				fresh = true
 			}
 			s.mu.Unlock()
+		}
+		if fresh && o != nil {
+			// the previous object must be completely stopped before a successor with the same id exists
+			s.mu.Lock()
+			clean := o.stopped
+			s.mu.Unlock()
+			if !clean {
+				r := s.apiBegin(o, "Stop", nil) // harness-initiated: retire the object before its successor starts
+				err := o.el.Stop()
+				s.mu.Lock()
+				o.stopped = true
+				o.started = false
+				s.mu.Unlock()
+				s.apiEnd(o, r, err == nil, err)
+			}
 		}
 		if fresh {
 			o = s.newObject(s.insts[a.Inst])
@@ -590,7 +615,7 @@ func Run(t *testing.T, p *Plan) *Trace {
 		tr.StartAt = s.t0
 		s.store = refkv.New(p.TTL, time.Now)
 		for i := range p.Instances {
-			s.insts = append(s.insts, &instRT{s: s, idx: i, spec: &p.Instances[i], opCount: map[string]int{}})
+			s.insts = append(s.insts, &instRT{s: s, idx: i, spec: &p.Instances[i], opCount: map[string]int{}, startSem: make(chan struct{}, 1)})
 		}
 		leader.VerifRandHook = s.dice
 		defer func() { leader.VerifRandHook = nil }()
